@@ -31,6 +31,7 @@ class Contract:
     class_fields: dict = field(default_factory=dict)   # class name -> {attr: type}: field types (incl. ghost fields g_*) by class
     list_literals: dict = field(default_factory=dict)   # local name -> list type: an empty `[]` assigned to that name is a typed symbolic list
     loop_counts: dict = field(default_factory=dict)     # loop ordinal -> ghost int path incremented each time the loop takes an item (pulls of a generator)
+    stub_new: list = field(default_factory=list)      # classes constructed as a fresh object WITHOUT running __init__ (their methods are interface contracts)
     opaque_new: list = field(default_factory=list)    # classes whose construction is treated as an opaque fresh value (helper objects no clause mentions)
     yield_to: str = ""                                # generator functions: ghost list (of record indices / values) that `yield` appends to
     backrefs: dict = field(default_factory=dict)      # "Class.attr" -> root-level path: object-typed field of LIST ELEMENTS that points back at a named object
